@@ -219,6 +219,10 @@ def check(ck):
                 for s in A.strings_in(n):
                     if len(s) <= 2:
                         concat.add(s)
+        qn = [s_ for s_ in ini.stmts(ast.Assign) if any(A.dotted(t) == "self._qualified_name" for t in s_.targets)]
+        if len(qn) == 1:
+            dq = ini.deps(qn[0].value)
+            concat = {x[7:-1] for x in dq if x.startswith("const:'") and len(x[7:-1]) <= 2}
         ok = {d_cluster, d_module, d_version} <= concat
         ck.ob(R2, ini.key(None, "delimiters"), ok, "the reference is built with %s, the pattern's delimiters" % sorted(concat) if ok else
               "FunctionReference builds names with %s but the parser splits on %s" % (sorted(concat), [d_cluster, d_module, d_version]), ini.where())
